@@ -70,10 +70,43 @@ ASSUMPTIONS = [
     "ties between nearest border points: any nearest border point is accepted; ties between farthest sub-pixels: any farthest sub-pixel is accepted",
     "mask bits / sub-size maps explored by forking; relocated coordinates, mesh vertices, pixel scales and origin are solver variables",
 ]
-EXPLORER_OPTS = {"timeout_ms": 20000, "max_paths": 200000}
+EXPLORER_OPTS = {"timeout_ms": 15000, "max_paths": 200000}
 BUDGET_S = {"quick": 600, "thorough": 2300}
 
 TOL = 1e-9
+
+
+def POST_INSTALL():
+    """engine work-around (no edit of symx): nlsat run times are heavy-tailed, so an 'unknown' obligation query is retried
+    with fresh solvers (QF_NRA tactic / default tactic, other seeds). Only ever replaces 'unknown' by a definite answer of z3."""
+    from symx import explore
+    if getattr(explore.Explorer, "_c18_retry", False):
+        return
+    orig = explore.Explorer._check_sliced
+
+    def check_sliced(self, *extra, group=None):
+        r, m = orig(self, *extra, group=group)
+        if r != "unknown":
+            return r, m
+        import time
+        for logic, seed, tmo in (("QF_NRA", 1, 20000), (None, 7, 20000), ("QF_NRA", 3, 60000), (None, 11, 120000)):
+            sol = z3.SolverFor(logic) if logic else z3.Solver()
+            sol.set("timeout", tmo)
+            sol.set("random_seed", seed)
+            sol.add(*self.constraints)
+            sol.add(*extra)
+            t0 = time.time()
+            res = str(sol.check())
+            self.stats.queries += 1
+            self.stats.solver_time += time.time() - t0
+            if res == "sat":
+                return "sat", sol.model()
+            if res == "unsat":
+                return "unsat", None
+        return "unknown", None
+
+    explore.Explorer._check_sliced = check_sliced
+    explore.Explorer._c18_retry = True
 
 
 # ---------------------------------------------------------------------------- three-valued logic helpers (proxies or python bools)
@@ -155,11 +188,11 @@ def relocation_obligations(A, E, tag, P, O, B, exact, sym):
     cy, cx = float(np.sum(B[:, 0]) / K), float(np.sum(B[:, 1]) / K)
     r2 = [float((B[j, 0] - cy) ** 2 + (B[j, 1] - cx) ** 2) for j in range(K)]
     rmin2, rmax2 = min(r2), max(r2)
-    tol = 0.0 if (exact and sym) else TOL          # radius equalities / band around the minimum radius
     bad_concrete = []
     for i in range(N):
         py_, px_, oy, ox = _py(P[i, 0]), _py(P[i, 1]), _py(O[i, 0]), _py(O[i, 1])
         concrete_in = not (V.is_sym(py_) or V.is_sym(px_))
+        tol = 0.0 if (exact and not concrete_in) else TOL          # radius equalities / band around the minimum radius
         if concrete_in:
             py_, px_ = float(py_), float(px_)
         if not (V.is_sym(oy) or V.is_sym(ox)):
@@ -214,6 +247,8 @@ def relocation_obligations(A, E, tag, P, O, B, exact, sym):
         A[key + "out"] = [ITE(ambiguous, 0.0, oy), ITE(ambiguous, 0.0, ox)]
     if sym and N > sum(1 for k in E if k.startswith(tag + "p") and k.endswith(".interior_unchanged")):
         A[tag + "concrete_companion_points"], E[tag + "concrete_companion_points"] = bad_concrete, []
+    elif not sym:
+        A[tag + "concrete_companion_points"] = []
 
 
 # ---------------------------------------------------------------------------- kernel level
@@ -331,7 +366,7 @@ def _fork_mask(ctx, H, W):
     return ctx.concrete_bools(mb)
 
 
-def case_subborder(ctx, H, W, smax, maps, api):
+def case_subborder(ctx, H, W, smax, maps, api, smin=1):
     mask = _fork_mask(ctx, H, W)
     n = int((~mask).sum())
     sub = np.ones(H * W, dtype=int)
@@ -339,11 +374,11 @@ def case_subborder(ctx, H, W, smax, maps, api):
         # every sub-size map over 1..smax: solver integers, concretised by forking
         for k in range(n):
             sk = V.integer("s_%d" % k)
-            ctx.assume(z3.And(sk.t >= 1, sk.t <= smax))
+            ctx.assume(z3.And(sk.t >= smin, sk.t <= smax))
             sub[k] = ctx.concretize_int(sk.t)
     else:
         s0 = V.integer("s")
-        ctx.assume(z3.And(s0.t >= 1, s0.t <= smax))
+        ctx.assume(z3.And(s0.t >= smin, s0.t <= smax))
         sub[:] = ctx.concretize_int(s0.t)
     ctx.set_case(mask=mask.tolist(), sub=sub.tolist())
     sy, sx = V.real("sy"), V.real("sx")
@@ -358,18 +393,29 @@ PIXEL_SCALES = (0.5, 0.25)
 ORIGIN = (0.25, -0.5)
 
 
-def _distort(g, kind):
-    """concrete 'ray-tracing' of the image-plane sub-grid into the source plane (dyadic arithmetic: exact)"""
-    g = np.asarray(g, dtype=float)
-    if kind == 0:
-        return g.copy()
-    y, x = g[:, 0], g[:, 1]
-    return np.stack([y + 0.5 * x * x, x - 0.25 * y], axis=-1)
+_PYTH = [(3, 4), (10, 0), (5, 12), (0, 5), (8, 6), (1.5, 2), (12, 5), (0, 10), (4, 3), (2.5, 6), (6, 8), (5, 0)]
 
 
-def body_class(inp, H, W, s, kind, which):
+def exact_border(K, variant):
+    """K source-plane border points with exactly representable radii about the centroid CENTRE (pairs +-p of axis /
+    Pythagorean points, plus one zero-sum triple for odd K); mixed radii, so generally non-convex"""
+    if K == 1:
+        offs = [(0.0, 0.0)]
+    else:
+        offs = [(3, 4), (-3, 4), (0, -8)] if K % 2 else []
+        i = variant
+        while len(offs) < K:
+            a, b = _PYTH[i % len(_PYTH)]
+            offs += [(a, b), (-a, -b)]
+            i += 1
+    scale = 0.125 if variant % 2 else 1.0
+    return np.array(offs, dtype=float) * scale + np.array(CENTRE, dtype=float)
+
+
+def body_class(inp, H, W, s, kind, which, named=None):
     import autoarray as aa
-    mask = np.array(inp["mask"], dtype=bool).reshape(H, W)
+    mask = _named(named) if named else np.array(inp["mask"], dtype=bool).reshape(H, W)
+    H, W = mask.shape
     n = int((~mask).sum())
     q = np.asarray(inp["q"]).reshape(2)
     v = np.asarray(inp["v"]).reshape(2)
@@ -394,8 +440,11 @@ def body_class(inp, H, W, s, kind, which):
         for (t, Y, X) in cell:
             img[t, 0] = ORIGIN[0] + (float(F(H - 1, 2) - Y)) * PIXEL_SCALES[0]
             img[t, 1] = ORIGIN[1] + (float(X - F(W - 1, 2))) * PIXEL_SCALES[1]
-    src = _distort(img, kind)
-    B = src[[int(t) for t in sbs]]                  # the border of the data grid in the source plane
+    # 'ray-traced' data grid: the sub-border sub-pixels land on a border with exact radii, the others keep their place
+    src = img.copy()
+    B = exact_border(len(sbs), kind)
+    for j, t in enumerate(sbs):
+        src[int(t)] = B[j]
     data = shim.as_obj(src) if sym else src.copy()
     free = [t for t in range(T) if t not in {int(u) for u in sbs}]
     if which == "grid" and free:
@@ -410,35 +459,47 @@ def body_class(inp, H, W, s, kind, which):
     mesh_grid = aa.Grid2DIrregular(values=mesh_pts)
     if which == "grid":
         out = hx.attempt(lambda: br.relocated_grid_from(grid=data_grid))
-        relocation_obligations(A, E, "relocator.grid.", data, out, B, False, sym)
+        relocation_obligations(A, E, "relocator.grid.", data, out, B, True, sym)
         rect = aa.mesh.Rectangular(shape=(3, 3))
         mg = hx.attempt(lambda: rect.mapper_grids_from(mask=m, source_plane_data_grid=data_grid, border_relocator=br).source_plane_data_grid)
-        relocation_obligations(A, E, "rectangular.data_grid.", data, mg, B, False, sym)
+        relocation_obligations(A, E, "rectangular.data_grid.", data, mg, B, True, sym)
         ab = hx.attempt(lambda: rect.relocated_grid_from(border_relocator=br, source_plane_data_grid=data_grid))
-        relocation_obligations(A, E, "mesh.relocated_grid_from.", data, ab, B, False, sym)
+        relocation_obligations(A, E, "mesh.relocated_grid_from.", data, ab, B, True, sym)
     else:
         out = hx.attempt(lambda: br.relocated_mesh_grid_from(grid=data_grid, mesh_grid=mesh_grid))
-        relocation_obligations(A, E, "relocator.mesh.", mesh_pts, out, B, False, sym)
+        relocation_obligations(A, E, "relocator.mesh.", mesh_pts, out, B, True, sym)
         dl = aa.mesh.Delaunay()
         mgs = hx.attempt(lambda: dl.mapper_grids_from(mask=m, source_plane_data_grid=data_grid, border_relocator=br, source_plane_mesh_grid=mesh_grid))
         if isinstance(mgs, hx.Raised):
             A["delaunay.no_exception"], E["delaunay.no_exception"] = repr(mgs), "ok"
         else:
-            relocation_obligations(A, E, "delaunay.data_grid.", data, mgs.source_plane_data_grid, B, False, sym)
-            relocation_obligations(A, E, "delaunay.mesh_grid.", mesh_pts, mgs.source_plane_mesh_grid, B, False, sym)
+            relocation_obligations(A, E, "delaunay.data_grid.", data, mgs.source_plane_data_grid, B, True, sym)
+            relocation_obligations(A, E, "delaunay.mesh_grid.", mesh_pts, mgs.source_plane_mesh_grid, B, True, sym)
         ab = hx.attempt(lambda: dl.relocated_mesh_grid_from(border_relocator=br, source_plane_data_grid=data_grid, source_plane_mesh_grid=mesh_grid))
-        relocation_obligations(A, E, "mesh.relocated_mesh_grid_from.", mesh_pts, ab, B, False, sym)
+        relocation_obligations(A, E, "mesh.relocated_mesh_grid_from.", mesh_pts, ab, B, True, sym)
     return A, E
 
 
-def case_class(ctx, H, W, s, kind, which):
-    mask = _fork_mask(ctx, H, W)
+def case_class(ctx, H, W, s, kind, which, named=None):
+    mask = _named(named) if named else _fork_mask(ctx, H, W)
     ctx.set_case(mask=mask.tolist())
     inputs = {"mask": mask, "q": V.real_array("q", (2,)), "v": V.real_array("v", (2,))}
-    hx.run_body(ctx, body_class, inputs, {"H": H, "W": W, "s": s, "kind": kind, "which": which}, validate_every=40)
+    hx.run_body(ctx, body_class, inputs, {"H": H, "W": W, "s": s, "kind": kind, "which": which, "named": named}, validate_every=10)
 
 
 BODIES = {"case_kernel": body_kernel, "case_subborder": body_subborder, "case_class": body_class}
+
+
+NAMED_MASKS = {
+    # 1 = masked
+    "ring5": ["11111", "10001", "10101", "10001", "11111"],          # annulus: 8 border pixels, hole in the middle
+    "lshape34": ["0001", "0111", "0000"],                            # lopsided region touching the array boundary
+    "blob45": ["11011", "10001", "00000", "11101"],
+}
+
+
+def _named(name):
+    return np.array([[c == "1" for c in row] for row in NAMED_MASKS[name]], dtype=bool)
 
 
 def _shapes(cap):
@@ -454,29 +515,42 @@ def cases(tier):
             out.append(("case_kernel", {"border": name, "scale": sc, "N": 1}))
     for name in (("pair", "tri", "ellipse4", "irr_tri") if quick else ("pair", "tri", "ellipse4", "lopsided5", "irr_tri", "irr_quad")):
         out.append(("case_kernel", {"border": name, "scale": 0.25, "N": 2}))
-    # sub-border indices: uniform sub-size
-    big = [(3, 4), (4, 3)]
-    for (H, W) in _shapes(9 if quick else 12):
+    if not quick:
+        for name in ("pair", "tri"):
+            out.append(("case_kernel", {"border": name, "scale": 0.5, "N": 3}))
+    # sub-border indices, uniform sub-size: all masks
+    for (H, W) in _shapes(9):
         n = H * W
         out.append(("case_subborder", {"H": H, "W": W, "smax": 3 if quick else 4, "maps": "uniform", "api": "int" if (H + W) % 2 else "array"},
-                    {"split": 0 if n < 9 else (3 if n < 12 else 5)}))
-    if quick:
-        for (H, W) in big:
-            out.append(("case_subborder", {"H": H, "W": W, "smax": 2, "maps": "uniform", "api": "array"}, {"split": 4}))
-    # every sub-size map over {1,2,3}
-    for (H, W) in _shapes(6 if quick else 8):
+                    {"split": 0 if n < 8 else 2}))
+    for (H, W) in ([(3, 4)] if quick else [(3, 4), (4, 3), (2, 5), (5, 2), (2, 6), (6, 2)]):
+        out.append(("case_subborder", {"H": H, "W": W, "smin": 2, "smax": 2 if quick else 3, "maps": "uniform", "api": "array"}, {"split": 5}))
+    # every sub-size map
+    for (H, W) in _shapes(4 if quick else 6):
         n = H * W
         if n >= 2:
             out.append(("case_subborder", {"H": H, "W": W, "smax": 3, "maps": "all", "api": "array2d" if (H + W) % 2 else "array"},
-                        {"split": 0 if n < 6 else (3 if n < 8 else 6)}))
+                        {"split": 0 if n < 6 else 4}))
+    for (H, W) in ([(2, 3), (3, 2)] if quick else [(2, 4), (4, 2), (1, 7), (7, 1), (1, 8), (8, 1)]):
+        out.append(("case_subborder", {"H": H, "W": W, "smax": 2, "maps": "all", "api": "array"}, {"split": 2 if quick else 4}))
     # relocator / mesh entry points
-    for (H, W) in _shapes(6 if quick else 9):
+    for (H, W) in _shapes(4 if quick else 6):
         for s in ((1, 2) if quick else (1, 2, 3)):
             for which in ("grid", "mesh"):
                 kind = (H + W + s) % 2
-                out.append(("case_class", {"H": H, "W": W, "s": s, "kind": kind, "which": which}, {"split": 0 if H * W < 6 else 2}))
+                out.append(("case_class", {"H": H, "W": W, "s": s, "kind": kind, "which": which, "named": None}, {"split": 0 if H * W < 6 else 2}))
+    for name in (("ring5", "lshape34") if quick else ("ring5", "lshape34", "blob45")):
+        for which in ("grid", "mesh"):
+            out.append(("case_class", {"H": 0, "W": 0, "s": 2, "kind": 1 if which == "grid" else 0, "which": which, "named": name}))
     return out
 
 
+BODY_KWARGS = {"case_kernel": ("border", "scale", "N"), "case_subborder": ("H", "W", "api"),
+               "case_class": ("H", "W", "s", "kind", "which", "named")}
+
+
 def replay(cand):
-    return hx.replay_body(BODIES[cand["case_fn"]], cand)
+    cand = dict(cand)
+    fn = cand["case_fn"]
+    cand["case_kwargs"] = {k: v for k, v in cand["case_kwargs"].items() if k in BODY_KWARGS[fn]}
+    return hx.replay_body(BODIES[fn], cand)
